@@ -30,6 +30,14 @@ var fuzzConfigs = []Case{
 	{Kind: kReqHTTP, Router: "provider", Keys: []KeyEntry{{Key: "rsa1", KID: "k1", Use: "sig"}}, Tok: TokSpec{Alg: "RS256", Key: "rsa1", KID: "k1", HasKID: true, Iss: "c1", Relation: "trusted"}},
 	{Kind: kHintHTTP, Router: "legacy", Algs: []string{"RS256"}, Keys: []KeyEntry{{Key: "rsa1", KID: "k1", Use: "sig"}}, Tok: TokSpec{Alg: "RS256", Key: "rsa1", KID: "k1", HasKID: true, Relation: "trusted"}},
 	{Kind: kAssertKS, Keys: []KeyEntry{{Key: "rsa1", KID: "k1", Use: "sig"}, {Key: "rsa2", KID: "", Use: ""}}, Tok: TokSpec{Alg: "PS256", Key: "rsa1", KID: "k1", HasKID: true, Relation: "trusted"}},
+	// provider with a custom access-token key set only: a token signed by that set's key is presented to the id_token_hint
+	// verifier (must-reject base: the hint verifier trusts the storage's keys), and a token of the storage's key to the same verifier
+	{Kind: kProvHint, Algs: []string{"RS256"}, Keys: []KeyEntry{{Key: "rsa1", KID: "k1", Use: "sig"}}, Prov: &ProvOpts{HasAccessKS: true, AccessKS: []KeyEntry{{Key: "rsa2", KID: "k1", Use: "sig"}}},
+		Tok: TokSpec{Alg: "RS256", Key: "rsa2", KID: "k1", HasKID: true, Relation: "set-access:trusted"}},
+	{Kind: kProvHint, Algs: []string{"RS256"}, Keys: []KeyEntry{{Key: "rsa1", KID: "k1", Use: "sig"}}, Prov: &ProvOpts{HasAccessKS: true, AccessKS: []KeyEntry{{Key: "rsa2", KID: "k1", Use: "sig"}}, AccessAlgs: []string{"RS512"}},
+		Tok: TokSpec{Alg: "RS256", Key: "rsa1", KID: "k1", HasKID: true, Relation: "trusted"}},
+	{Kind: kProvAcc, Algs: []string{"RS256"}, Keys: []KeyEntry{{Key: "rsa1", KID: "k1", Use: "sig"}}, Prov: &ProvOpts{HasHintKS: true, HintKS: []KeyEntry{{Key: "rsa2", KID: "k1", Use: "sig"}}, HintAlgs: []string{"RS256", "RS384"}},
+		Tok: TokSpec{Alg: "RS384", Key: "rsa1", KID: "k1", HasKID: true, Relation: "alg-of-other-list:trusted"}},
 }
 
 var fuzzTemplates = []string{
